@@ -76,18 +76,18 @@ theorem schemas_typeOk {stmts : List RStmt} (hs : ∀ pre st post, stmts = pre +
 
 /-! ### from the rules to the hypotheses of the layout bridge -/
 
-/-- what the rules model does not see of a type: its references are interpreted faithfully, and a variable-length
-    capacity fits the 64-bit length prefix -/
+/-- what the rules model does not see of a type: its references are interpreted faithfully (that a variable-length
+    capacity fits the 64-bit length prefix is part of `TypeOk`) -/
 def Ty.Fits (ρ : CompInfo → Layout.Ty) : Ty → Prop
   | .scalar s => s.RefsOk ρ
   | .fixedArr e _ => e.RefsOk ρ
-  | .varArr e cap => e.RefsOk ρ ∧ cap < 2 ^ 64
+  | .varArr e _ => e.RefsOk ρ
 
 theorem Ty.layoutOk_of (ρ : CompInfo → Layout.Ty) (t : Ty) (h1 : TypeOk t) (h2 : t.Fits ρ) : t.LayoutOk ρ := by
   cases t with
   | scalar s => exact ⟨h1, h2⟩
   | fixedArr e cap => exact ⟨h1.1, h2, h1.2⟩
-  | varArr e cap => exact ⟨h1.1, h2.1, h1.2, h2.2⟩
+  | varArr e cap => exact ⟨h1.1, h2, h1.2.1, h1.2.2⟩
 
 theorem mem_fieldTys {sc : RSchema} {t : Ty} (h : t ∈ sc.fieldTys) : ∃ a ∈ sc.attrs, a.ty = t := by
   simp only [RSchema.fieldTys, List.mem_map, List.mem_filter] at h
